@@ -3,7 +3,7 @@
 
     _psposix.get_terminal_map (+ its @memoize) and the lookup in Process.terminal(),
     _pslinux.boot_time (the `btime` line of /proc/stat), the BOOT_TIME cache and
-    `bt = BOOT_TIME or boot_time()` in Process.create_time(),
+    the way Process.create_time() chooses between the cache and a fresh read (`BootSrc`),
     Process.threads(): `os.listdir` order → `thread_ids.sort()` (string sort), threads that
     vanish during the scan (`hit_enoent`) and the final `_raise_if_not_alive()`.
 
@@ -12,6 +12,19 @@
 -/
 import PsutilModel.Model.C06
 namespace Psutil.C06
+
+/-- HOW `Process.create_time()` obtains the boot time it adds (translator fact `createBoot`) -/
+inductive BootSrc
+  /-- `bt = BOOT_TIME or boot_time()`: truthiness — a cached 0.0 counts as "nothing cached" and /proc/stat is re-read -/
+  | or
+  /-- `bt = BOOT_TIME if BOOT_TIME is not None else boot_time()`: whatever is cached is used, 0.0 included -/
+  | isNotNone
+  /-- `bt = boot_time()`: the cache is never consulted -/
+  | fresh
+  /-- a shape the translator does not know (`other:<text>`); the model then re-reads on every call, and the
+      obligation `xcfg_good` fails whatever the model does -/
+  | other
+  deriving DecidableEq, Repr
 
 /-- facts about the surrounding code, extracted by the translator on every run -/
 structure XCfg where
@@ -27,8 +40,8 @@ structure XCfg where
   btimeKey : Bytes
   /-- boot_time(): index into `line.strip().split()` -/
   btimeIdx : Nat
-  /-- create_time(): `bt = BOOT_TIME or boot_time()` (true) / always `boot_time()` (false) -/
-  createUsesCachedBoot : Bool
+  /-- create_time(): which of the three ways of choosing between BOOT_TIME and `boot_time()` -/
+  createBoot : BootSrc
   /-- threads(): `thread_ids.sort()` before the loop -/
   threadsSorts : Bool
   /-- threads(): `except (FileNotFoundError, ProcessLookupError): hit_enoent = True; continue` -/
@@ -122,20 +135,25 @@ def bootTimeCall (x : XCfg) (cache : Option Rat) (procStat : Bytes) : Res Rat ×
   | .ok b => (.ok b, match cache with | none => some b | some c => some c)
   | .error e => (.error e, cache)
 
+/-- the cached boot time `create_time()` is willing to use instead of calling `boot_time()`:
+    `isNotNone` — whatever is pinned, 0 included; `or` — what is pinned unless it is 0 (falsy); otherwise nothing -/
+def cachedBoot (x : XCfg) (cache : Option Rat) : Option Rat :=
+  match x.createBoot, cache with
+  | .isNotNone, c => c
+  | .or, some b => if b ≠ 0 then some b else none
+  | _, _ => none
+
 /-- `Process.create_time()` (platform layer) from the text of both files.
-    `ctime = float(parse()['create_time'])` first; then `bt = BOOT_TIME or boot_time()`
-    (a cached 0.0 is falsy and re-reads); the division by CLOCK_TICKS comes last, after BOOT_TIME was pinned. -/
+    `ctime = float(parse()['create_time'])` first; then `bt` = the cached BOOT_TIME if the code's test accepts
+    it (`cachedBoot`), else `boot_time()` — which reads /proc/stat and pins BOOT_TIME if nothing is pinned yet;
+    the division by CLOCK_TICKS comes last, after BOOT_TIME was pinned. -/
 def createTimeCall (cfg : Cfg) (x : XCfg) (tck : Nat) (cache : Option Rat) (procStat pidStat : Bytes) :
     Res Rat × Option Rat :=
   match parseStat cfg pidStat >>= fun v => pyFloat v.ctime with
   | .error e => (.error e, cache)
   | .ok ctime =>
-    match (if x.createUsesCachedBoot then cache else none) with
-    | some b =>
-      if b ≠ 0 then ((pyDiv ctime tck).map (· + b), cache)
-      else match bootTimeCall x cache procStat with
-        | (.ok bt, c') => ((pyDiv ctime tck).map (· + bt), c')
-        | (.error e, c') => (.error e, c')
+    match cachedBoot x cache with
+    | some b => ((pyDiv ctime tck).map (· + b), cache)
     | none =>
       match bootTimeCall x cache procStat with
       | (.ok bt, c') => ((pyDiv ctime tck).map (· + bt), c')
